@@ -737,6 +737,9 @@ def campaign(ctx, res, prop, programs, judge, n_random=3, explore_runs=0, do_loc
     rng = ctx.rng("sched" + tag)
     batch = []
     for prog in programs:
+        if len(res.failures) >= 10 or len(res.mismatches) >= 10:
+            res.notes.append("campaign cut short after 10 failures/mismatches")
+            break
         for s in schedules(ctx, prog, rng, n_random, explore_runs):
             res.evaluations += 1
             bad, key = judge(prog, s)
@@ -757,7 +760,7 @@ def campaign(ctx, res, prop, programs, judge, n_random=3, explore_runs=0, do_loc
                                             observed=detail, expected="property " + prop))
             if do_lockstep and prog.get("kind", "scripted") == "scripted" and not s.deadlock and not s.livelock:
                 batch.append((prog, s))
-            if len(batch) >= 400:
+            if len(batch) >= 60:
                 flush_lockstep(res, batch)
                 batch = []
     flush_lockstep(res, batch)
